@@ -24,6 +24,13 @@ def make_groups(rng):
     gs = [family.draw_group(rng, t)]
     if rng.random() < 0.4:
         gs.append(family.draw_group(rng, rng.choice(list(family.TEMPLATES))))
+    for g in gs:          # what param_groups holds matters here: ints that later become floats, a tensor lr changed in place
+        r = rng.random()
+        if r < 0.3:
+            g["hyper_style"] = "int"
+            g["lr"] = [0.0, 1.0, g["lr"][2]]
+        elif r < 0.45:
+            g["hyper_style"] = "tensor_lr"
     return gs
 
 
